@@ -252,6 +252,20 @@ RD_C08 = [((a, "CM.Props.RunDynC08." + t, d), "Props.RunDynC08") for a, t, d in 
     ("dyn_forced_closed_admits_later_calls", "forced_closed_admits_later_calls", "… ForcedClosed on (ForceOpen off): a call that starts afterwards is never short-circuited, whatever the state flag and the others do (veto and bulkhead still apply)"),
     ("dyn_override_freezes_later_transitions", "override_freezes_later_transitions", "… either override on and everybody fresh or finished: no Opened / Closed is ever announced and the state flag never changes, by failing or succeeding calls, OpenCircuit or CloseCircuit, in any interleaving"),
     ("dyn_cleared_overrides_resume_state", "cleared_overrides_resume_state", "… both overrides off (cleared): a later call is invoked only if it read the STATE FLAG as closed, or as open and the closer admitted it, and the opener did not veto it")]]
+def EX(items): return [((a, "CM.Props.ExecAll." + t, d), "Props.ExecAll") for a, t, d in items]
+EX_CONTRACT = EX([
+    ("exec_return_value_contract", "return_value_contract", "the WHOLE Execute among concurrent callers, transitions and reconfigurations, every schedule: what the caller gets is what the contract says — nil from the run step; the run step's own error for a bad request, without a fallback or with fallbacks disabled; otherwise the fallback's answer, its panic, or ConcurrencyLimitReached (only under a non-negative fallback limit)"),
+    ("exec_fallback_not_consulted", "fallback_not_consulted", "a nil, a bad request and a panic of the run function never reach the fallback; nothing does while fallbacks are disabled")])
+EX_EVENTS = EX([
+    ("exec_right_fallback_events", "exactly_the_right_fallback_events", "every schedule: a finished Execute told the fallback collectors exactly one rejection / success / failure as its outcome calls for (nothing when the fallback panicked or was not consulted), and its fallback ran exactly once iff it decided the answer"),
+    ("exec_at_most_one_fallback_event", "at_most_one_fallback_event_ever", "… never more than one fallback event / invocation while it is under way"),
+    ("exec_right_run_events", "exactly_the_right_run_events", "the run side is untouched by what follows it: exactly the right run events")])
+EX_GAUGE = EX([
+    ("exec_gauges_never_negative", "gauges_never_negative", "every schedule of whole Executes: neither gauge is ever negative"),
+    ("exec_quiescent_gauges_zero", "quiescent_gauges_zero", "both gauges read zero once everybody has returned — by return, refusal or PANIC of the run function or of the fallback"),
+    ("exec_fallbacks_in_flight_le_limit", "fallbacks_in_flight_le_limit", "never more callers inside a fallback function than the fallback limit"),
+    ("exec_negative_fallback_limit", "negative_fallback_limit_refuses_nobody", "a negative fallback limit refuses nobody")])
+EX_LIVE = EX([("exec_never_deadlocks", "never_deadlocks", "whole Executes racing transitions and reconfigurations never deadlock")])
 RD_VIEW = [(("dyn_call_thread_view", "CM.Props.RunDynView.call_thread_view", "every schedule of calls racing operators, seen from one call thread, is a solo run of the static model's thread against some oracle — the runs the K6 ties of `run` / `IsOpen` / `openCircuit` / `close` quantify over"), "Props.RunDynView")]
 
 # ---- hystrix / simplelogic / default factories (units GoHFac*)
@@ -380,16 +394,16 @@ PROPS = {
                 ("tie_GoHCloser_ShouldClose", "CM.GoTie.GoHCloser.go_ShouldClose_eq", "`ShouldClose` compares the successes in a row with the required number")]) + TC +
             [C("close"), C("checkSuccess")] + CLOSER_CFG + K6_TC + TC_HOOK + HFAC_CLOSER + HFAC_CHAIN[:1] + HFAC_LAYERS[:1]),
     "C04": ("the gauges and limits: `throttleConcurrentCommands`, the deferred decrements in `run` / `fallback`, the published limits",
-            [C("throttleConcurrentCommands"), C("ConcurrentCommands"), C("ConcurrentFallbacks"), RUN, FALLBACK] + LIVECFG + ERR_LIMIT + ATOM_I64 + RUN_C04 + RUN_EVENTS[:1] + RUN_VIEWS[1:] + K6_FB + K6_CORE + K6_RUN[:1] + RD_GAUGE),
+            [C("throttleConcurrentCommands"), C("ConcurrentCommands"), C("ConcurrentFallbacks"), RUN, FALLBACK] + LIVECFG + ERR_LIMIT + ATOM_I64 + RUN_C04 + RUN_EVENTS[:1] + RUN_VIEWS[1:] + K6_FB + K6_CORE + K6_RUN[:1] + RD_GAUGE + EX_GAUGE + EX_EVENTS[:1]),
     "C05": ("the classification chain of `run`",
-            [C("checkErrBadRequest"), C("checkErrTimeout"), C("checkErrInterrupt"), C("checkErrFailure"), C("checkSuccess"), RUN] + FAN_RUN + ALL + ERR_BAD + CTOR + RUN_EVENTS + K6_RUN[:1] + RD_EVENTS),
-    "C06": ("fallback rules: `Execute` and `fallback`", [FALLBACK, EXECUTE, RUNENTRY] + FAN_FB + ERR_BAD + ERR_NOTBAD + K6_FB[:1] + K6_FB[2:]),
+            [C("checkErrBadRequest"), C("checkErrTimeout"), C("checkErrInterrupt"), C("checkErrFailure"), C("checkSuccess"), RUN] + FAN_RUN + ALL + ERR_BAD + CTOR + RUN_EVENTS + K6_RUN[:1] + RD_EVENTS + EX_EVENTS),
+    "C06": ("fallback rules: `Execute` and `fallback`", [FALLBACK, EXECUTE, RUNENTRY] + FAN_FB + ERR_BAD + ERR_NOTBAD + K6_FB[:1] + K6_FB[2:] + EX_CONTRACT + EX_EVENTS[:2] + EX_LIVE),
     "C07": ("contexts: the derived deadline context in `run`, the caller's context everywhere else", [RUN, FALLBACK, EXECUTE]),
     "C08": ("overrides and pass-through: `IsOpen`, `allowNewRun`, the transitions, `Execute`'s Disabled branch, the published flags",
             [C("IsOpen"), C("isEmptyOrNil"), C("allowNewRun"), C("openCircuit"), C("close"), C("attemptToOpen"), EXECUTE] + LIVECFG + SETCFG + ATOM_BOOL + CIRC_MISC + RD_C08 + RD_ALT + RD_VIEW),
     "C09": ("transitions and their notifications",
             [C("IsOpen"), C("openCircuit"), C("close"), C("attemptToOpen"), C("OpenCircuit"), C("CloseCircuit"), C("checkSuccess"), C("checkErrFailure"), C("checkErrTimeout")] + FAN_CIRC + SETCFG + ATOM_BOOL + K6_TRANS + K6_CORE + CTOR + HFAC_CLOSER[2:3] + HFAC_OPENER[5:6] + K6_RUN + RD_ALT),
-    "C10": ("panics: the deferred calls of `run` and `fallback` run on every exit", [RUN, FALLBACK, EXECUTE] + CIRC_MISC + RUN_EVENTS[:1] + RUN_C04[3:4] + RUN_LIVE + K6_RUN[:1] + RD_EVENTS[:1] + RD_GAUGE[1:2] + RD_LIVE),
+    "C10": ("panics: the deferred calls of `run` and `fallback` run on every exit", [RUN, FALLBACK, EXECUTE] + CIRC_MISC + RUN_EVENTS[:1] + RUN_C04[3:4] + RUN_LIVE + K6_RUN[:1] + RD_EVENTS[:1] + RD_GAUGE[1:2] + RD_LIVE + EX_GAUGE[1:2] + EX_EVENTS[:1] + EX_LIVE),
     "C11": ("reconfiguration: what each SetConfigThreadSafe writes (circuit, hystrix opener, hystrix closer, SLO tracker) — every setting, nothing else",
             SETCFG + LIVECFG + OPENER_CFG + CLOSER_CFG + SLO_CFG + VARS_C11 + RD_EVENTS + RD_GAUGE + RD_ALT + RD_LIVE + RD_VIEW + RD_C08[:1] + RD_C08[3:]),
     "C12": ("every timestamp is a reading of the configured clock: all translated functions of circuit.go",
@@ -437,7 +451,7 @@ UNITS = {"F_": "gocircuit", "All": "gocircuit", "T_GoHOpener": "gohopener", "T_G
          "T_GoFbStatsVar": ["gofbstatsvar", "gofbstats"], "T_GoRunStatsVar": ["gorunstatsvar", "gorunstats"], "T_GoSloVar": "goslovar",
          "T_GoRPVar": ["gorpvar", "gorpsnap", "gosdvar", "gosorteddurations"], "T_GoManagerVar": "gomanagervar", "T_GoExpvarToVal": "goexpvartoval",
          "T_GoFanRunVar": "gofanrunvar", "T_GoFanFbVar": ["gofanfbvar", "gofanrunvar"], "T_GoCircuitVar": "gocircuitvar",
-         "I_Core": [], "Props.RunAll": [], "Props.RunDynAll": [], "Props.RunDynView": [], "Props.RunDynC08": [], "I_Fb": "gofbi", "I_Run": "goruni", "I_Mgr": ["gomgri", "gomgriall", "gomanager"], "I_RC": ["gorciclear", "gorciadv", "gorciops"], "I_TC": "gotci", "I_Call": "gocalli",
+         "I_Core": [], "Props.RunAll": [], "Props.RunDynAll": [], "Props.RunDynView": [], "Props.RunDynC08": [], "Props.ExecAll": [], "I_Fb": "gofbi", "I_Run": "goruni", "I_Mgr": ["gomgri", "gomgriall", "gomanager"], "I_RC": ["gorciclear", "gorciadv", "gorciops"], "I_TC": "gotci", "I_Call": "gocalli",
          "T_GoLiveLogic": ["goneveropens", "gonevercloses", "gohopenercfg", "gohclosercfg", "goslocfg"]}
 
 def units_of(prop):
